@@ -12,4 +12,16 @@ TEXT = {
   "note": "Streams whose (damaged) top-level int message exceeds 2^20 are excluded by construction and counted (corrupt length -> giant allocation; see DESIGN.md findings). CRC32 collisions (2^-32 per multi-byte damage) are accepted. Native fuzzing is not seed-reproducible; a saved crasher is the reproducible unit.",
   "technique": "property-based round trip + exhaustive single-fault enumeration per generated stream + coverage-guided fuzzing",
  },
+ "C10": {
+  "text": "Random exploration of sortio's three public entry points (SortReader, NewMergeReader, Reduce) over generated schemas (key prefix 1..3, 17 column types), 0..5 input streams delivered through chunking readers (arbitrary chunk sizes, EOF with or after the last rows, zero-row reads for the sorting reader only, injected read errors at any row), all internal size knobs (sort canary 1..256, spill batch 1..128, spill target 1 byte..1 MiB, merge buffer 1..128) and destination-size schedules. Oracle in both directions: output is key-ordered AND a permutation / sorted union / one folded row per key of the input; an injected error must surface (never EOF); no spiller directory may remain after SortReader returns; Reader contract on every read.",
+  "design_ref": "DESIGN.md 4 C10",
+  "note": "Inputs to merge/reduce are pre-sorted (and pre-combined) by the harness as the API requires; combiners are commutative and associative. Private TMPDIR per process makes the spill-directory check exact.",
+  "technique": "property-based testing (rapid) with reference oracle (sort/merge/fold of the input multiset)",
+ },
+ "C01": {
+  "text": "Generated bigslice programs (operator DAGs over the full public operator set, built from a function algebra with reflect.MakeFunc so that the same user functions drive a sequential reference interpreter) are run on the local executor and scanned; the reference tags every stage with what the documentation fixes (per-shard order, global order, per-shard multiset, multiset + key co-location) and the comparison asserts exactly that much: multiset always, order where fixed, shard placement where fixed, and for every WriterFunc/Scan observer every row of every shard exactly once followed by one end-of-stream. Small programs are enumerated completely (all operator sequences up to length 3, quick samples length 3; thorough length 4) over a 10-operator alphabet x shard counts x row counts; larger ones are drawn by rapid.",
+  "design_ref": "DESIGN.md 4 C01, 3.1, Appendix A",
+  "note": "Reference semantics are those of Appendix A of DESIGN.md; only documented behaviour is asserted (e.g. Head on an unordered stage is checked as a bounded sub-multiset). Termination is a 90 s per-program budget (programs take milliseconds). Other executors/configurations are covered by C04.",
+  "technique": "property-based differential testing against a reference interpreter (rapid) + bounded-exhaustive program enumeration",
+ },
 }
